@@ -253,6 +253,15 @@ def cases(draw, model_kw=None, recipe_kind='mixed', max_rules=5, cfg_pool=None,
     rules = draw(R.rules_for(op_out_names(mspec), ops_present(mspec),
                              max_rules=max_rules, cfg_pool=cfg_pool,
                              allow_skip=allow_skip))
+    groups = G.sharer_groups(mspec)
+    if groups and draw(st.integers(0, 2)) == 0:
+      # the consumers of one shared constant get individually drawn treatments
+      import re as _re
+      pool = draw(st.permutations((cfg_pool or R.COMMON_CFGS) + [(R.NOQ, R.DEFAULT)]))
+      grp = draw(st.permutations(draw(st.sampled_from(groups))))
+      rules = rules[:draw(st.integers(0, 1))] + [
+          R.rule('^' + _re.escape(name) + ';', '*', pool[k][0], dict(pool[k][1]))
+          for k, name in enumerate(grp[:3])]
     recipe = {'kind': 'rules', 'rules': rules}
   n = draw(st.integers(1, calib_max))
   case = {'model': mspec, 'recipe': recipe,
